@@ -134,8 +134,17 @@ pub fn format_return(ctx: &Context, return_node: &Return, shape: Shape) -> Retur
                             .over_budget()
                     {
                         // Hang the pair, using the original expression for formatting
+                        // If the pair has punctuation, any comments trailing the expression have already been
+                        // moved after the punctuation, so we must not emit them a second time
+                        let has_punctuation = formatted.punctuation().is_some();
                         formatted = formatted.map(|_| {
                             let expression = hang_expression(ctx, original, shape, Some(1));
+                            let expression = if has_punctuation {
+                                expression
+                                    .update_trailing_trivia(FormatTriviaType::Replace(vec![]))
+                            } else {
+                                expression
+                            };
                             if idx == 0 {
                                 expression
                             } else {
